@@ -27,7 +27,276 @@ def build(pid, P, R, tier, log_dir):
         obs.append(mp.XOb("X-lower_stmts", "", "", lambda: run_simple_arms(P, R, mp, log_dir)))
         obs.append(mp.XOb("E-emit-exprs", "", "", lambda: run_emit_exprs(P, R, mp, log_dir, SEQ_BOUND.get(tier, 3))))
         obs.append(mp.XOb("E-emit-call-args", "", "", lambda: run_call_args(P, R, mp, log_dir, 3 if tier == "quick" else 4)))
+        obs.append(mp.XOb("X-lower_match", "", "", lambda: run_lower_match(P, R, mp, log_dir, 3 if tier == "quick" else 4)))
+        obs.append(mp.XOb("E-emit-match", "", "", lambda: run_emit_match(P, R, mp, log_dir, 3 if tier == "quick" else 4)))
     return obs
+
+
+# ---- match: arms keep their order, and pattern / guard / body their roles, through lowering and emission -------------------------
+def run_lower_match(P, R, mp, log_dir, bound):
+    import tc_props
+    t0 = time.time()
+    f = tc_props.find_fn(P, "lower_match_arms")
+    ex = mirx.make_executor(P, R, max_paths=2000000)
+    ex.opaque_calls = mirx.slice_opaque
+    ex.model_sequences = True
+    ex.seq_bound = bound
+    ex.recursion_bound = 1
+    ex.max_steps = 3000
+    ex.tolerate_unsupported = True
+    ex.summarize = tc_props.SUMMARIZE + [r"::lower_expr$", r"::lower_expr_spanned$", r"::lower_statements$", r"::lower_pattern$", r"IrSpan as .*Default>::default$"]
+    selfv = ex.sym_value("AstLowering", "self")
+    arms = ex.sym_value("&[incan_syntax::ast::Spanned<incan_syntax::ast::MatchArm>]", "arms")
+    outs = ex.run(f, [selfv, arms])
+    an = struct_fields(R, "incan_syntax::ast::MatchArm")
+    bvars = mp.variants(R, "incan_syntax::ast::MatchBody")
+    bad, n_ok, classes, shapes = [], 0, {}, []
+    for o in outs:
+        if o.kind == "unsupported":
+            bad.append((conj(o.pc), f"unsupported MIR: {o.info}"))
+            continue
+        if o.kind != "return":
+            bad.append((conj(o.pc), f"panic: {o.info}"))
+            continue
+        v = ex.deref(o.value, o.state)
+        if isinstance(v, Adt) and v.variant == "Err":
+            continue
+        n = o.state.facts.get("len:" + arms.name)
+        back = {}
+        for e in o.events:
+            if e[0].endswith(("lower_expr", "lower_statements", "lower_pattern")) and len(e[1]) >= 2:
+                m = re.match(r"^sym<([^:>]+):", e[1][1])
+                if m:
+                    back[e[2]] = m.group(1)
+        got = subst_lowerings(tree(v, ex, o.state), back)
+        # lower_pattern is infallible: its result is the event value itself, not an Ok payload
+        def unp(t):
+            if isinstance(t, tuple):
+                return tuple(unp(x) for x in t)
+            if isinstance(t, str) and t in back:
+                return f"L({back[t]})"
+            return t
+        got = unp(got)
+        want_arms = []
+        okp = n is not None
+        for j in range(n or 0):
+            node = mirx.seq_elem(ex, arms, j).child(None, 0)
+            pat = node.child(None, an.index("pattern")).child(None, 0).name
+            g = node.child(None, an.index("guard"))
+            fg = o.state.facts.get(g.tag().term) if g._tag is not None else None
+            b = node.child(None, an.index("body"))
+            fb = o.state.facts.get(b.tag().term) if b._tag is not None else None
+            if not (fg and fg[0] == "eq" and fb and fb[0] == "eq"):
+                okp = False
+                break
+            guard = ("Some", f"L({g.child('Some', 0).child(None, 0).name})") if fg[1] == 1 else "None"
+            if bvars[fb[1]] == "Expr":
+                body = f"L({b.child('Expr', 0).child(None, 0).name})"
+            else:
+                body = ("TypedExpr", None, ("IrExprKind", "Block", f"L({b.child('Block', 0).name})", "None"))
+            want_arms.append(("MatchArm", None, f"L({pat})", guard, body))
+        n_ok += 1
+        classes[f"{n} arms"] = classes.get(f"{n} arms", 0) + 1
+        text = str(got)
+        if len(shapes) < 3 and n == 1:
+            shapes.append(text[:400])
+        if not okp:
+            bad.append((conj(o.pc), f"an arm's guard / body kind is never examined: {text[:200]}"))
+            continue
+        # compare arm by arm on (pattern, guard, body-source): the block body's TypedExpr carries type / span fields we do not pin
+        ok = isinstance(got, tuple) and got[0] == "Ok" and isinstance(got[1], tuple) and got[1][0] == "Vec" and len(got[1]) - 1 == len(want_arms)
+        if ok:
+            for ga, wa in zip(got[1][1:], want_arms):
+                gs = str(ga)
+                ok = ok and ga[0] == "MatchArm" and ga[2] == wa[2] and ga[3] == wa[3]
+                if isinstance(wa[4], str):
+                    ok = ok and ga[4] == wa[4]
+                else:
+                    ok = ok and "'Block'" in gs and wa[4][2][2] in gs
+        if not ok:
+            bad.append((conj(o.pc), f"{n} arms: lowering builds {text[:300]}, the source says {str(want_arms)[:300]}"))
+    r = {"id": "X-lower_match", "engine": "E2-X mirsmt",
+         "statement": "lowering of match arms: the IR arms are the source arms in order; each arm's pattern is the lowering of ITS pattern, its guard the "
+                      "lowering of its guard (None when absent), its body the lowering of its expression or a block of its lowered statements",
+         "bound": f"AstLowering::lower_match_arms: 0..={bound} arms, each with / without guard, expression or block body; sub-lowerings summarised by arbitrary results",
+         "encoding": "arm list as a symbolic sequence; results as constructed values", "functions_encoded": [n_ + " (MIR)" for n_ in ex.encoded],
+         "paths": len(outs), "compositions": classes, "shapes": shapes}
+    r["wall_s"] = round(time.time() - t0, 2)
+    if len(classes) < bound + 1:
+        first = next((w for b, w in bad if b != "false"), "-")
+        return native_match(r, f"not every arm count was reached ({classes}); first problem: {first[:300]}", log_dir)
+    r["vacuity_ok"] = True
+    live = [(b, w) for b, w in bad if b != "false"]
+    for b, w in live:
+        if solver.check(mp.smt_lines(ex, [b]), [], "z3", 60).status != "unsat":
+            return native_match(r, w, log_dir)
+    r.update(status="held", solver=f"{n_ok} Ok paths match" + (f"; {len(live)} deviating paths infeasible (z3 unsat)" if live else " (syntactic)"))
+    return r
+
+
+def run_emit_match(P, R, mp, log_dir, bound):
+    import emit_props
+    t0 = time.time()
+    sites = []
+    fs = [v for k, v in P.fns.items() if re.search(r"(^|::)statements::<impl at [^>]*>::emit_stmt$", k)]
+    fe = [v for k, v in P.fns.items() if re.search(r"expressions::<impl at [^>]*>::emit_expr$", k)]
+    if len(fs) != 1 or len(fe) != 1:
+        raise Inconclusive("emit_stmt / emit_expr not found (or ambiguous) in the MIR dump")
+    sites = [("statement", fs[0], "IrStmt", "IrStmtKind"), ("expression", fe[0], "TypedExpr", "IrExprKind")]
+    man = struct_fields(R, "MatchArm") if R.resolve("MatchArm") is not None else None
+    if man is None:
+        raise Inconclusive("IR MatchArm not found in the sources")
+    bad_all, n_ok, classes, shapes, encoded, paths = [], 0, {}, [], [], 0
+    exs = []
+    for site, f, vty, kty in sites:
+        ex = emit_props.atom_executor(P, R)
+        ex.model_sequences = True
+        ex.seq_bound = bound
+        ex.tolerate_unsupported = True
+        ex.max_steps = 3000
+        ex.summarize = [r"::emit_pattern$"]
+
+        def emit_stmt_atom(ex_, callee, args, st):
+            e = ex_.deref(args[1], st)
+            return [("return", Adt("Result", "Ok", [symex.Tokens(["@" + e.name])]), None, st)]
+        ex.state_intrinsics[r"::emit_stmt$"] = emit_stmt_atom
+        selfv = ex.sym_value("IrEmitter", "self")
+        val = ex.sym_value(vty, "m")
+        kind = val.child(None, struct_fields(R, vty).index("kind"))
+        kvars = mp.variants(R, kty)
+        st0 = symex.State()
+        k = kvars.index("Match")
+        st0.facts[kind.tag().term] = ("eq", k)
+        st0.pc.append(f"(= {kind.tag().term} {k})")
+        outs = ex.run(f, [selfv, val], state=st0)
+        encoded += ex.encoded
+        paths += len(outs)
+        td = R.resolve(kty)
+        mf = [x[0] for x in [v for v in td.variants if v[0] == "Match"][0][1]]
+        scrut = kind.child("Match", mf.index("scrutinee"))
+        arms = kind.child("Match", mf.index("arms"))
+        lbad = []
+        for o in outs:
+            if o.kind == "unsupported":
+                lbad.append((conj(o.pc), f"{site}: unsupported MIR: {o.info}"))
+                continue
+            if o.kind != "return":
+                lbad.append((conj(o.pc), f"{site}: panic: {o.info}"))
+                continue
+            toks = emit_props.tokens_of(ex, o)
+            n = o.state.facts.get("len:" + arms.name)
+            if toks is None or n is None:
+                lbad.append((conj(o.pc), f"{site}: no tokens / arms never walked"))
+                continue
+            pat_ev = {}
+            for e in o.events:
+                if e[0].endswith("emit_pattern"):
+                    m = re.search(re.escape(arms.name) + r"\.e(\d+)\b", e[1][1])
+                    if m:
+                        pat_ev[int(m.group(1))] = e[2]
+            want = ["match", "@" + scrut.name, "{"]
+            okp = True
+            for j in range(n):
+                a = mirx.seq_elem(ex, arms, j)
+                g = a.child(None, man.index("guard"))
+                fg = o.state.facts.get(g.tag().term) if g._tag is not None else None
+                if j not in pat_ev or not (fg and fg[0] == "eq"):
+                    okp = False
+                    break
+                if j:
+                    want.append(",")
+                want.append(f"<tokens of sym<{pat_ev[j]}:TokenStream>>")
+                if fg[1] == 1:
+                    want += ["if", "@" + g.child("Some", 0).name]
+                want += ["=>", "@" + a.child(None, man.index("body")).name]
+            want.append("}")
+            n_ok += 1
+            key = f"{site}, {n} arms"
+            classes[key] = classes.get(key, 0) + 1
+            if len(shapes) < 4 and n == 2 and classes[key] <= 1:
+                shapes.append(f"{site}: {' '.join(toks)}"[:300])
+            if not okp or toks != want:
+                lbad.append((conj(o.pc), f"{site}, {n} arms: emitted `{' '.join(toks)[:260]}`, documented `{' '.join(want)[:260]}`"))
+        exs.append((site, ex, lbad))
+    r = {"id": "E-emit-match", "engine": "E2-X mirsmt",
+         "statement": "emission of `match` (statement and expression form): `match s { P0 => B0 , P1 if G1 => B1 , .. }` - arms in IR order, each arm's own "
+                      "pattern, guard (only when present) and body, in that order",
+         "bound": f"the Match arms of IrEmitter::emit_stmt and emit_expr; 0..={bound} arms, each with / without guard; patterns (emit_pattern), scrutinee, "
+                  "guards and bodies are atoms",
+         "encoding": "arm list as a symbolic sequence; quote! expansions (incl. #(..),* repetition) as token pushes",
+         "functions_encoded": sorted(set(n_ + " (MIR)" for n_ in encoded)), "paths": paths, "compositions": classes, "samples_tokens": shapes}
+    r["wall_s"] = round(time.time() - t0, 2)
+    if len(classes) < 2 * (bound + 1):
+        first = next((w for _, _, lb in exs for b, w in lb if b != "false"), "-")
+        return native_match(r, f"not every arm count was reached ({classes}); first problem: {first[:300]}", log_dir)
+    r["vacuity_ok"] = True
+    nbad = 0
+    for site, ex, lbad in exs:
+        for b, w in lbad:
+            if b == "false":
+                continue
+            nbad += 1
+            if solver.check(mp.smt_lines(ex, [b]), [], "z3", 60).status != "unsat":
+                return native_match(r, w, log_dir)
+    r.update(status="held", solver=f"{n_ok} token sequences equal the documented ones" + (f"; {nbad} deviating paths infeasible (z3 unsat)" if nbad else " (syntactic)"))
+    return r
+
+
+MATCH_PROGRAM = '''enum Shape:
+    Circle(int)
+    Square(int)
+    Dot
+
+def area(s: Shape, big: bool) -> int:
+    match s:
+        case Circle(r) if big:
+            return r * r * 300
+        case Circle(r):
+            return r * r * 3
+        case Square(w):
+            return w * w
+        case _:
+            return 0
+'''
+
+
+def native_match(r, why, log_dir):
+    import kani
+    os.makedirs(log_dir, exist_ok=True)
+    path = os.path.join(log_dir, "match_replay.incn")
+    texts, broken = [], False
+    progs = [MATCH_PROGRAM]
+    for prof in ("dev", "release"):
+        binp = kani.build_replay(prof, True, log_dir)
+        out = ""
+        for pr in progs:
+            with open(path, "w") as fh:
+                fh.write(pr)
+            rc, out, _, to = common.run([binp, "emitrust", path], timeout=120)
+            if "RUST-END" in out:
+                break
+        src = re.sub(r"\s+", "", out)
+        seq = ["matchs{", "Circle(r)ifbig=>", "300", "Circle(r)=>", "*3", "Square(w)=>", "w*w", "_=>"]
+        pos, cur = [], 0
+        for w in seq:
+            j = src.find(w, cur)
+            pos.append(j)
+            if j >= 0:
+                cur = j
+        if "RUST-END" not in out or -1 in pos:
+            broken = True
+            texts.append(f"[{prof}] the emitted match does not contain, in this order, {[w for w, j in zip(seq, pos) if j < 0][:3]}: ...{out.strip()[-300:]}")
+    text = "; ".join(texts) or "the match program is emitted with its arms in source order, guards and bodies on their own arms"
+    r["native"] = text
+    if broken:
+        os.makedirs(os.path.join(common.REPLAYS_DIR, "MIRX"), exist_ok=True)
+        rp = os.path.join(common.REPLAYS_DIR, "MIRX", r["id"] + ".replay")
+        with open(rp, "w") as fh:
+            fh.write(f"mirx match\n# {r['statement']}\n# solver: {why[:400]}\n# native: {text}\n")
+        r.update(status="violated", replay=rp, counterexample={"path": why[:500], "native": text})
+    else:
+        r.update(status="inconclusive", reason=f"a feasible path deviates ({why[:300]}) but the match program is emitted as documented")
+    return r
 
 
 # ---- which argument expression ends up in which slot of an emitted call ----------------------------------------------------------
@@ -866,10 +1135,14 @@ ASSIGN_PROGRAM = '''def f(n: int) -> int:
     let fixed = 3
     mut counter = 4
     counter = counter + fresh + fixed
+    mut tag = b"ab"
+    if n > 2:
+        tag = b"cd"
+    print(len(tag))
     return total + counter
 '''
 ASSIGN_WANT = ["let mut total = 0", "let fresh = 1", "if n > 1 { total = 5 ;", "let inner = 2", "let fixed = 3", "let mut counter = 4",
-               "; counter = counter + fresh + fixed"]
+               "; counter = counter + fresh + fixed", 'let mut tag = b"ab"', 'if n > 2 { tag = b"cd" ;']
 ASSIGN_BAD_PROGRAM = '''def g(n: int) -> int:
     fixed = 3
     if n > 0:
@@ -1346,7 +1619,7 @@ def native_if(r, why, log_dir):
 
 def replay(pid, line, path):
     from common import say
-    fn = {"emitstmt": native_emit_stmt, "assign": native_assign, "lowerstmts": native_stmts, "emitexprs": native_exprs, "callargs": native_call_args}.get(line[1], native_if)
+    fn = {"emitstmt": native_emit_stmt, "assign": native_assign, "lowerstmts": native_stmts, "emitexprs": native_exprs, "callargs": native_call_args, "match": native_match}.get(line[1], native_if)
     r = fn({"id": "replay", "statement": ""}, "", os.path.join(common.WORK_DIR, pid, "replay"))
     say(r.get("native", ""))
     if r.get("status") == "violated":
